@@ -261,6 +261,7 @@ type MRow struct {
 	Pend    []any // pending image of Owner
 	PendDel bool  // Owner deleted the row
 	Owner   int   // 0 = no uncommitted change
+	DelImg  []any // image the row had when Owner deleted it (its index entries stay until Owner ends)
 }
 
 type MTable struct {
@@ -371,6 +372,9 @@ func (m *Model) Apply(txn int, s *Stmt) Effect {
 			} else {
 				r.Owner = txn
 				r.Pend, r.PendDel = ni, s.Kind == "delete"
+				if s.Kind == "delete" {
+					r.DelImg = img
+				}
 			}
 		}
 		m.gc(t)
@@ -398,7 +402,7 @@ func (m *Model) Commit(txn int) {
 				} else {
 					r.Com = r.Pend
 				}
-				r.Pend, r.PendDel, r.Owner = nil, false, 0
+				r.Pend, r.PendDel, r.Owner, r.DelImg = nil, false, 0, nil
 			}
 		}
 		m.gc(t)
@@ -409,7 +413,7 @@ func (m *Model) Abort(txn int) {
 	for _, t := range m.Tables {
 		for _, r := range t.Rows {
 			if r.Owner == txn {
-				r.Pend, r.PendDel, r.Owner = nil, false, 0
+				r.Pend, r.PendDel, r.Owner, r.DelImg = nil, false, 0, nil
 			}
 		}
 		m.gc(t)
